@@ -123,7 +123,14 @@ CHECKS["C18"] = (
     "DESIGN.md 7/C18",
 )
 
-NOT_YET = {}
+CHECKS["C19"] = (
+    "Coq: sound syntactic guard check over path conditions + vm_compute sweep over the sink table regenerated from every call site of print/exec/eval/compile/input/exit in vyxal/*.py + effect-trace models of vy_eval, vy_print, function_call, vy_exec, execute_vyxal with theorems + audit-hook oracle",
+    "Machine-checked: a path condition accepted by guard_excludes_online cannot be true when online whatever the opaque atoms are; every in-scope sink of the regenerated table that is not on the explicit, justified exclusion list is so guarded (C19_sinks); `.online` is only assigned from online_mode; in the effect-trace models an online run contains no host print, no Python eval/exec of user text, every printed value reaches the output record, and every failure (transpile, body, flag post-processing, implicit output) ends in ErrRecord; Exit. PARTIAL: host stdout and interpreter audit events are observed on runs, not proved.",
+    "Trusted: coqc kernel; translator tools/gen_sinks.py (path conditions ignore early returns, fail-closed; getattr/importlib indirection and sinks inside sympy/stdlib are not seen); 16 in-scope unguarded sinks are listed one by one with a justification (exec of the transpiled program, eval of pycode(<number>), repl, ...); out-of-scope observations (øḋ, ∆e, flag f, ¨U) are reported in evidence, not judged.",
+    "DESIGN.md 7/C19",
+)
+
+NOT_YET = {"C01": "being built: Machine/RefSem models and the compile-correctness theorem are in progress; claimed once its theorem and correspondence pass on the unchanged tree"}
 
 def main():
     props = [json.loads(l)["id"] for l in open(os.path.join(ROOT, "properties.jsonl"), encoding="utf-8")]
